@@ -123,6 +123,11 @@ pub fn handle(mode: &str, j: &J) -> J {
             }
             json!({"n": words.len(), "bits": bits})
         }
+        "int_sweep" => {
+            let lo = j["lo"].as_i64().unwrap();
+            let hi = j["hi"].as_i64().unwrap();
+            crate::sweep::int_sweep(j["ty"].as_str().unwrap(), lo, hi)
+        }
         _ => json!({"unknown_mode": mode}),
     }
 }
